@@ -23,6 +23,26 @@ CHECKS = {
             'same state, and with the functional API, in 7 tidal configurations (CPL/CTL/layered, spin-locked or free, 1 and 2 tidal layers).',
             'Bounded depth and fixed value menu; merging of states relies on the deep fingerprint covering every attribute that can '
             'influence the future; functional oracle uses the library mode tables (C08/C09/C10 check those).', 'DESIGN.md section 2, C13'),
+    'C18': ('model_checking', 'E3-crash-sched',
+            'stateless deviation-bounded DFS of the real multiprocessing_run under a controlled scheduler and crash injector '
+            '(every schedule / crash point with <= B deviations), restart from every distinct canonical disk state',
+            'The real restart code runs against shimmed module globals (file system with CPython buffering and torn .npz writes, virtual '
+            'pool with one controlled thread per Pool.map chunk, deterministic clock). For each configuration (grids 2x2..4x2 and 2x2x2, '
+            'must_include as list / tuple / log axis, pool sizes 4..16, every failing-case subset persistent or first-run-only, avoid_crashes '
+            'on/off) every execution with <= 2 (small grids) or 1 deviations is run, followed by a restart whose return value, disk state and '
+            'per-case execution counters are checked; thorough adds crash-restart-crash-restart histories; one real pathos run per grid ties the '
+            'virtual pool to the real one.',
+            'Kill model: nothing after the crash point, unflushed text buffers lost, .npy/.npz torn at half; kernel write reordering and a kill '
+            'of a single pool worker are not modelled; bounded deviations.', 'DESIGN.md section 2, C18'),
+    'C20': ('exploration', 'E1-lattice',
+            'exhaustive special-value menu (41x41, 65x65 thorough) and all integer exponents in [-200,200] on the compiled helpers at C level '
+            'and through the Python wrappers, against 80-digit mpmath and literal C99 Annex G tables',
+            'Every element of the stated finite lattices is executed on the real compiled functions (C level through the __pyx_capi__ pointers and '
+            'through the Python wrappers) and on the interpreted twin; each result is compared with an 80-digit mpmath reference (<= 4 ulp per '
+            'component; <= 4 ulp of the modulus for powers), with literal Annex G tables cross-checked against cmath, or with exact integers. '
+            'All deviations of the pinned tree are classified into 17 narrow, quantitatively checked known-defect families; anything else is fresh.',
+            'Decided on the stated menus only; libm of the image; cexp/cpow/cipow/hypot asserted for finite arguments with representable exact '
+            'result; ctypes access assumes x86-64 SysV ABI (self-tested in every worker).', 'DESIGN.md section 2, C20'),
 }
 
 NOT_APPLICABLE = {}
